@@ -228,6 +228,10 @@ def native_make(shape, rng, args):
     if isinstance(shape, K.SeqOf):
         n = rng.randint(shape.min_len, min(shape.max_len if shape.max_len is not None else 5, 5))
         vals = [native_make(shape.elem, rng, args) for _ in range(n)]
+        if shape.kind == "array":
+            import numpy as np
+
+            return np.asarray(vals, dtype="int32" if isinstance(shape.elem, K.Int) else "float64")
         return vals if shape.kind == "list" else tuple(vals)
     if isinstance(shape, K.OneOf):
         return native_make(rng.choice(shape.alts), rng, args)
